@@ -553,6 +553,10 @@ def run_job(job, seed=0, replay_dir=None):
                 res["inconclusive"].append(f"path {res['paths']}: holds: {e}")
                 continue
             axioms = list(out.extra.get("axioms", []))
+            # comparisons of a lazily kept sqrt(V) with a threshold: models used for replay stay away from V == thr^2
+            margins = [z3.Or(Vv - t2 >= rv(Fraction(1, 2 ** 20)), t2 - Vv >= rv(Fraction(1, 2 ** 20)))
+                       for k, (Vv, t2) in [e for e in path.events if e[0] == "rootcmp"]]
+            margins += list(job.model_constraints(S)) if hasattr(job, "model_constraints") else []
             calls = [d for k, d in path.events if k == "geod"]
             if calls:
                 from .symgeo import geod_axioms
@@ -573,7 +577,7 @@ def run_job(job, seed=0, replay_dir=None):
             # witness for this path (validates the environment model against the real stack)
             wmodel = None
             if job.validate_witnesses:
-                r, wmodel = geod_model(ex, [*pc, *axioms, *known_excl, *V.grid], calls)
+                r, wmodel = geod_model(ex, [*pc, *axioms, *known_excl, *V.grid, *margins], calls)
                 if r != z3.sat and not calls:
                     r, wmodel = ex.model_of(*pc, *axioms, *known_excl)
                 if r == z3.sat and exact_on_grid(S, wmodel):
@@ -613,14 +617,14 @@ def run_job(job, seed=0, replay_dir=None):
                     res["inconclusive"].append(f"path {res['paths']}: obligation '{label}': solver {r}")
                     continue
                 # counterexample: prefer one on the float grid, replay on the real stack
-                r2, m = geod_model(ex, [*pc, *axioms, *known_excl, neg, *V.grid], calls)
-                if r2 != z3.sat and not calls:
+                r2, m = geod_model(ex, [*pc, *axioms, *known_excl, neg, *V.grid, *margins], calls)
+                if r2 != z3.sat and not calls and not margins:
                     r2, m = ex.model_of(*pc, *axioms, *known_excl, neg)
-                if r2 == z3.unsat and calls:
-                    # the violation exists only for geodesic values geographiclib never produces on the menu
+                if r2 == z3.unsat and (calls or margins):
+                    # the violation exists only for geodesic values geographiclib never produces on the menu, or only
+                    # with a spread within 2^-20 of a threshold (excluded by the property itself)
                     res["discharged"] += 1
-                    res.setdefault("cegar_discharged", 0)
-                    res["cegar_discharged"] += 1
+                    res["cegar_discharged"] = res.get("cegar_discharged", 0) + 1
                     continue
                 if m is None:
                     res["inconclusive"].append(f"path {res['paths']}: obligation '{label}': no model")
